@@ -25,7 +25,7 @@ LETTERS = {
 }
 ACCESSORS = {"Size": ({"len"}, {"blocks"}), "HardlinkCount": ({"nlink"}, {"len", "ino"}), "Inode": ({"ino"}, {"nlink", "dev"}), "User": ({"uid"}, {"gid"}),
              "Group": ({"gid"}, {"uid"}), "Depth": ({"depth"}, set()), "Basename": ({"file_name"}, {"path", "parent"}), "Dirname": ({"parent", "path"}, {"file_name"}),
-             "SymlinkTarget": ({"read_link", "path_is_symlink"}, set()), "Type": ({"path_is_symlink", "file_type", "format_non_link_file_type"}, set())}
+             "SymlinkTarget": ({"read_link", "file_type", "is_symlink"}, {"path_is_symlink"}), "Type": ({"path_is_symlink", "file_type", "format_non_link_file_type"}, set())}
 
 
 def char_switches(f):
@@ -78,9 +78,31 @@ def run(ctx):
                         v = o.a.get("v") if o.k == "const" else None
                     radix.append((n, v))
                 if (t.callee or "").startswith(FSP) and n in ("peek", "advance_by"):
-                    lens.append((n, t.args[1].const_value()))
+                    lens.append((n, prim.origin_of_operand(f2, t.args[1])))
         ctx.ob("R1", "octal-radix", bool(radix) and all(v == 8 for _, v in radix) and {"is_digit", "from_str_radix"} <= {n for n, _ in radix}, "octal escape parsing uses %s; oracle radix 8 for the digit test and the conversion" % radix, fn=pe, how="constant arguments")
-        ctx.ob("R1", "octal-length", sorted(lens) == [("advance_by", 3), ("peek", 3)], "octal escapes look at / consume %s characters; oracle exactly three (\\NNN)" % lens, fn=pe, how="constant arguments")
+        # \N, \NN, \NNN: the run of octal digits at the front, at most three, is consumed — no more, no fewer
+        okl = len(lens) == 1 and lens[0][0] == "advance_by"
+        ldesc = [(n, o.fmt()[:160]) for n, o in lens]
+        if okl:
+            o = lens[0][1].strip()
+            chain = [c.a["name"] for c in o.call_nodes()]
+            tk = [c for c in o.call_nodes() if c.a["name"] == "take"]
+            okl = o.k == "call" and chain[:4] == ["count", "take_while", "take", "chars"] and len(tk) == 1 and tk[0].kids[1].strip().k == "const" and tk[0].kids[1].strip().a.get("v") == 3 and any(x.k == "field" and str(x.a) == "string" for x in o.walk())
+        ctx.ob("R1", "octal-length", okl, "octal escapes consume %s; oracle: advance_by(count of the leading octal digits of the remaining format, at most three) — one to three digits, like printf(3)" % ldesc, fn=pe, how="provenance slice")
+        # the value is one byte: ASCII as a literal character, anything else as a raw byte (never a multi-byte encoding of it)
+        comps = []
+        for b in pe.reachable():
+            for st in pe.blocks[b].stmts:
+                if st.rv is not None and st.rv.k == "agg" and st.rv.j.get("adt") == P + "FormatComponent" and st.rv.ops:
+                    vo = prim.origin_of_operand(pe, st.rv.ops[0])
+                    if any(c.a["name"] == "from_str_radix" for c in vo.call_nodes()):
+                        asc = None
+                        for at in prim.norm_guards(prim.dominating_guards(pe, b)):
+                            if at["a"].strip().k == "call" and at["a"].strip().a["name"] == "is_ascii" and at["b"].strip().k == "const":
+                                asc = (at["rel"] == "eq") == (at["b"].strip().a.get("v") is True)
+                        single = any(x.k == "cast" and str(x.a) == "u8" for x in vo.walk())
+                        comps.append((st.rv.j.get("variant"), asc, single))
+        ctx.ob("R1", "octal-value-is-one-byte", sorted(comps, key=str) == sorted([("Literal", True, True), ("Byte", False, True)], key=str), "components built from an octal escape (variant, value is ASCII, value narrowed to u8): %s; oracle: Literal only for an ASCII value, Byte for 0200..0377 — char::from_u32 of such a value would be written as two bytes" % comps, fn=pe, how="provenance slice + dominating guards")
     # ---- R2 directive letters ---------------------------------------------------------------------------------
     pf = ctx.fn("R2", FSP + "parse_format_specifier")
     if pf is not None:
@@ -440,8 +462,32 @@ def run(ctx):
                        fn=pp, where=prim.site(pp, b), how="decoded template + dominating guards")
             else:
                 ctx.ob("R3", "unclassified-write", False, "a write to the output in Printf::print is not under a Literal/Directive component arm (component=%s): cannot decide" % comp, fn=pp, where=prim.site(pp, b))
-        miss = [k for k in ("Literal", "Directive") if k not in seen]
+        # a raw byte (octal escape above 0177) is written as that one byte
+        for b, t in pp.calls():
+            if t.j.get("callee_name") == "write_all":
+                comp_b = [var for adt_, var, holds, subj, gd in prim.variant_facts(pp, b, prog) if adt_.endswith("printf::FormatComponent") and holds]
+                vo = prim.origin_of_operand(pp, t.args[1])
+                okb = comp_b == ["Byte"] and any(x.k == "variant" and str(x.a) == "Byte" for x in vo.walk()) and not [c for c in vo.call_nodes() if c.a["name"] not in ("deref", "as_ref", "as_slice", "next", "into_iter", "iter")]
+                recv = prim.origin_of_operand(pp, t.args[0])
+                okb = okb and any(x.k == "arg" and x.a["name"] == "out" for x in recv.walk())
+                seen["Byte"] = "write_all([byte])"
+                ctx.ob("R4", "byte-written-verbatim", okb, "under component %s the output receives write_all(%s); oracle: the Byte component's own byte, nothing else" % (comp_b, vo.fmt()[:120]), fn=pp, where=prim.site(pp, b), how="dominating guards + provenance slice")
+        need = ["Literal", "Directive"] + (["Byte"] if any(v["name"] == "Byte" for v in (adtc or {}).get("variants", [])) else [])
+        miss = [k for k in need if k not in seen]
         ctx.ob("R3", "all-cases-written", not miss, "component kinds with a write: %s; missing %s" % (sorted(seen, key=str), miss), fn=pp, how="dominating guards")
+    # the minimum width is bounded when the format is parsed: a width near 2^64 would pad (almost) forever
+    pw = ctx.fn("R3", FSP + "parse_format_width")
+    if pw is not None:
+        bounded = False
+        for b in pw.reachable():
+            for st in pw.blocks[b].stmts:
+                if st.rv is not None and st.rv.k == "agg" and st.rv.j.get("adt") == "std::result::Result" and st.rv.j.get("variant") == "Err":
+                    for at in prim.norm_guards(prim.dominating_guards(pw, b)):
+                        for x, y, rel in ((at["a"], at["b"], at["rel"]), (at["b"], at["a"], prim._SWAP[at["rel"]])):
+                            ys = y.strip()
+                            if rel in ("gt", "ge") and ys.k == "const" and isinstance(ys.a.get("v"), int) and ys.a["v"] <= (1 << 31) and any(c.a["name"] == "parse" for c in prim.expand_single_def_vars(pw, x).call_nodes()):
+                                bounded = True
+        ctx.ob("R3", "width-bounded", bounded, "parse_format_width rejects a parsed width above a constant <= 2^31 (printf(3)'s int): %s; without a bound `%%18446744073709551615p` pads for ever" % bounded, fn=pw, how="dominating guards (normal form)")
         # padding: blanks before the value when right-justified, after it when left-justified, the same amount both ways
         pads = [(b, t) for b, t in pp.calls() if (t.callee or "").split("::<")[0] == P + "write_padding"]
         ctx.floor("R3", "padding writes in Printf::print", len(pads), 2)
